@@ -10,10 +10,10 @@ cd "$WT" || exit 2
 DEMO=$(ls demo_*.py | head -1)
 [ -f patch.diff ] || git diff -- ladim > patch.diff
 git checkout -q -- ladim
-PYTHONPATH=$WT /venv/bin/python $DEMO >/tmp/seed_orig.log 2>&1; RC_ORIG=$?
+PYTHONPATH=$WT /venv/bin/python $DEMO >/tmp/seed_orig_$PID.log 2>&1; RC_ORIG=$?
 git apply patch.diff || { echo "patch does not apply"; exit 2; }
-PYTHONPATH=$WT /venv/bin/python $DEMO >/tmp/seed_mod.log 2>&1; RC_MOD=$?
-echo "demo: original rc=$RC_ORIG ($(tail -1 /tmp/seed_orig.log | cut -c1-80)) modified rc=$RC_MOD ($(tail -1 /tmp/seed_mod.log | cut -c1-80))"
+PYTHONPATH=$WT /venv/bin/python $DEMO >/tmp/seed_mod_$PID.log 2>&1; RC_MOD=$?
+echo "demo: original rc=$RC_ORIG ($(tail -1 /tmp/seed_orig_$PID.log | cut -c1-80)) modified rc=$RC_MOD ($(tail -1 /tmp/seed_mod_$PID.log | cut -c1-80))"
 BASE=$(/verif/tools/baseline.sh "$WT" | head -1)
 echo "baseline with the change: $BASE"
 FIRED=""
